@@ -1394,7 +1394,8 @@ class SliceSubsetState(SubsetState):
                     subslices.append(slices[i])
                 elif np.isscalar(view[i]):
                     beg, end, stp = slices[i].indices(data.shape[i])
-                    if view[i] < beg or view[i] >= end or (view[i] - beg) % stp != 0:
+                    index = view[i] + data.shape[i] if view[i] < 0 else view[i]
+                    if index < beg or index >= end or (index - beg) % stp != 0:
                         return np.broadcast_to(False, shape)
                 elif isinstance(view[i], slice):
                     if view[i].step is not None and view[i].step < 0:
